@@ -126,11 +126,16 @@ CLAIMED = {
    design="5/C11, 12.2"),
  "C19": dict(
    text="Lean theorems over Evaluation: serial phase postcondition per slot and exact count (serial_phase, count_delta), multiprocess evaluation equals serial evaluation for EVERY completion order "
-        "(multiprocess_phase), totals over islands/archipelagos (island_total, archipelago_total). Tie: real Evaluation (serial and real worker pools with delays) vs the model; counting wrappers "
-        "around the base fitness entry points incl. local optimization.",
-   note=COMMON_NOTE + "multiprocessing.Pool returns each job's own result. Known finding F13 (template counter copied) in known_findings.json.",
-   technique="Lean 4 proof (permutation invariance of result application) + correspondence",
-   design="5/C19"),
+        "(multiprocess_phase), totals over islands/archipelagos (island_total, archipelago_total); the texts of Evaluation.__call__ / _serial_eval / _multiprocess_eval / _fitness_job are "
+        "regenerated and pinned (C19Facts). For fitness functions that CHANGE the individual they are called on (local optimization; Props/C19Effect.lean over Model/EvalEffect.lean): the slot holds "
+        "the individual the function was applied to, with its changed state, the returned fitness and the flag (serial_phase_effect), the count is the sum of the per-call costs at the states "
+        "before evaluation (count_delta_effect), multi-process = serial for every completion order (multiprocess_phase_effect), under an idempotent function every evaluated slot is consistent "
+        "- its stored fitness is the function's value for the individual it holds (phase_consistent, idempotent_needed), and a write-back of the fitness value alone breaks that "
+        "(lossy_breaks_consistency, lossy_invisible_without_effect). Tie: real Evaluation (serial and real worker pools with delays, RandomSubsetEvaluation) vs the model for a pure and for a "
+        "state-changing fitness function; counting wrappers around the base fitness entry points incl. local optimization; islands / archipelagos over histories with regenerated populations.",
+   note=COMMON_NOTE + "multiprocessing.Pool returns each job's own result. F13 (template counter copied) is repaired and listed as fixed in known_findings.json.",
+   technique="Lean 4 proof (per-slot postconditions, permutation argument over the completion order, consistency invariant for effectful fitness functions) + correspondence with the real phase incl. worker pools",
+   design="5/C19, 12.2"),
  "C06": dict(
    text="Lean theorems with the optimizer as an ARBITRARY oracle (any trial sequence, any final vector): the value returned by the locally-optimizing wrapper is the base fitness of the "
         "individual with the constants it holds afterwards, it no longer requests optimization, parameter count preserved, untouched when it did not need optimization, exact count of base "
